@@ -354,3 +354,126 @@ func c17TScenarios() []tScenario {
 		}),
 	}
 }
+
+// ---------------------------------------------------------------- C09: push/pull racing gossip
+
+// A state exchange between two real nodes (initiator a, host b) while a gossip
+// claim about a third member x reaches one of them: every interleaving of the
+// merge's per-entry handler calls with the gossip handler (Engine T). The end
+// state of x at the node that got the gossip must equal the result of SOME
+// position of the gossip claim within the merged list (computed on fresh nodes
+// by running the real handlers sequentially), and hearsay must never remove x.
+func c09TScenarios() []tScenario {
+	type gos struct {
+		name string
+		buf  func() []byte
+	}
+	enc := func(t uint8, v any) []byte { b, _ := ml.VEncode(t, v, false); return b }
+	gossips := []gos{
+		{"alive(x,4)", func() []byte {
+			return enc(ml.VAliveMsg, &ml.VAlive{Incarnation: 4, Node: "x", Addr: ip4(30), Port: 7946, Meta: []byte("g"), Vsn: defaultVsn})
+		}},
+		{"suspect(x,3)", func() []byte { return enc(ml.VSuspectMsg, &ml.VSuspect{Incarnation: 3, Node: "x", From: "w"}) }},
+		{"dead(x,3)", func() []byte { return enc(ml.VDeadMsg, &ml.VDead{Incarnation: 3, Node: "x", From: "w"}) }},
+	}
+	xs := []xstate{{"alive", 3}, {"dead", 3}, {"suspect", 3}, {"alive", 4}}
+	xOf := func(n *node) string {
+		r := findRec(n.M.VSnapshot(), "x")
+		if r == nil {
+			return "absent"
+		}
+		return fmt.Sprintf("%s i%d m=%q timer=%v", stateName(r.State), r.Incarnation, r.Meta, r.HasTimer)
+	}
+	var out []tScenario
+	for _, g := range gossips {
+		for _, ax := range xs {
+			for _, bx := range xs {
+				if ax == bx {
+					continue
+				}
+				for _, target := range []string{"initiator", "host"} {
+					g, ax, bx, target := g, ax, bx, target
+					name := fmt.Sprintf("join(a:x=%v,b:x=%v)||gossip %s at %s", ax, bx, g.name, target)
+					out = append(out, tScenario{Name: name, Horizon: 20 * time.Second, Build: func(b *bubble) ([]tThread, func(map[string]string) (string, string, string)) {
+						l := lat{Enc: "off", IPNames: true}
+						// expected end states: the gossip claim at every position of the list the target merges
+						mkPair := func() *pair {
+							p := newPairOpt(b, l, false, func(name string, c *ml.Config) { c.TCPTimeout = 2 * time.Second })
+							applyX(p.s, ax)
+							applyX(p.r, bx)
+							p.drainQueues()
+							return p
+						}
+						want := map[string]bool{}
+						{
+							p0 := mkPair()
+							tn, other := p0.s, p0.r
+							if target == "host" {
+								tn, other = p0.r, p0.s
+							}
+							// the list the target will merge = the other side's records in its list order
+							os := other.M.VSnapshot()
+							var list []ml.VPushNodeState
+							for _, nm := range os.Order {
+								r := findRec(os, nm)
+								list = append(list, ml.VPushNodeState{Name: r.Name, Addr: r.Addr, Port: r.Port, Meta: r.Meta, Incarnation: r.Incarnation, State: r.State, Vsn: r.Vsn[:]})
+							}
+							_ = p0.s.M.Shutdown()
+							_ = p0.r.M.Shutdown()
+							_ = tn
+							for pos := 0; pos <= len(list); pos++ {
+								q := mkPair()
+								qt := q.s
+								if target == "host" {
+									qt = q.r
+								}
+								qt.M.VMergeState(list[:pos])
+								advance(time.Microsecond)
+								qt.M.VHandleCommand(g.buf(), simAddr("10.0.0.9:7946"), time.Now())
+								settle()
+								advance(time.Microsecond)
+								qt.M.VMergeState(list[pos:])
+								want[xOf(qt)] = true
+								_ = q.s.M.Shutdown()
+								_ = q.r.M.Shutdown()
+							}
+						}
+						p := mkPair()
+						tn := p.s
+						if target == "host" {
+							tn = p.r
+						}
+						before := tn.M.VSnapshot()
+						return []tThread{
+								{"join", func() string { n, err := p.s.M.Join([]string{string(p.r.Addr)}); return fmt.Sprintf("%d/%v", n, err == nil) }},
+								{"gossip", func() string { tn.T.Deliver(g.buf(), simAddr("10.0.0.9:7946")); return "ok" }},
+							}, func(res map[string]string) (string, string, string) {
+								settle()
+								got := xOf(tn)
+								if res["join"] != "1/true" {
+									return "join-failed", res["join"], got
+								}
+								if !want[got] {
+									var ws []string
+									for w := range want {
+										ws = append(ws, w)
+									}
+									return "merge-gossip-not-serializable", fmt.Sprintf("x at the %s ended as %s; sequential positions give %v", target, got, ws), got
+								}
+								// hearsay never kills: if x was a member and neither the gossip nor the list carried a self-signed departure, a dead/suspect hearsay must not have removed it unless the gossip itself was a death claim
+								rb := findRec(before, "x")
+								if rb != nil && (rb.State == ml.StateAlive || rb.State == ml.StateSuspect) && g.name != "dead(x,3)" && !listed(tn, "x") {
+									return "hearsay-killed-member", fmt.Sprintf("x was %s at the %s, now %s", stateName(rb.State), target, got), got
+								}
+								if !listed(p.s, p.r.Name) || !listed(p.r, p.s.Name) {
+									return "join-not-mutual", "", got
+								}
+								return "", "", got
+							}
+					}})
+				}
+			}
+		}
+	}
+	return out
+}
